@@ -14,7 +14,15 @@
 
 #define COPY_VALUE_FROM_ARG(TARGET, ARG, STATUS)                        \
   if (PyFloat_Check(ARG)) TARGET = (float)PyFloat_AsDouble(ARG);        \
-  else if (PyLong_Check(ARG)) TARGET = (float)PyLong_AsLong(ARG);       \
+  else if (PyLong_Check(ARG)) {                                         \
+      double vcopy = PyLong_AsDouble(ARG);                              \
+      if (vcopy == -1.0 && PyErr_Occurred()) {                          \
+          PyErr_Clear();                                                \
+          PyErr_SetString(PyExc_TypeError, "integer out of range");     \
+          (STATUS)=0; (TARGET)=0;                                       \
+      }                                                                 \
+      else TARGET = (float)vcopy;                                       \
+  }                                                                     \
   else {                                                                \
       PyErr_SetString(PyExc_TypeError, "expected float or int value");  \
       (STATUS)=0; (TARGET)=0; }
